@@ -151,6 +151,24 @@ def docrootLine : List String → Option String
     match ofHex name with
     | some name => some (toString (symWalk (fsOfTokens fs) name))
     | none => some "bad-op"
+  | "idxfile" :: dr :: ph :: rest =>
+    -- idxfile <docroot> <phys> <k> <names...> <m> <existing paths...>
+    match ofHex dr, ofHex ph, takeCounted rest with
+    | some dr, some ph, some (names, rest) =>
+      (match takeCounted rest with
+       | some (ex, []) => some ("go " ++ toHex (indexResolve (fun p => ex.contains p) dr ph names))
+       | _ => some "bad-op")
+    | _, _, _ => some "bad-op"
+  | "idxserve" :: fo :: dr :: ph :: rest =>
+    -- idxserve <follow> <docroot> <phys> <k> <names...> <m> <existing...> <path:kind ...>
+    match ofHex dr, ofHex ph, takeCounted rest with
+    | some dr, some ph, some (names, rest) =>
+      (match takeCounted rest with
+       | some (ex, fsToks) =>
+         let final := indexResolve (fun p => ex.contains p) dr ph names
+         some (toHex final ++ " " ++ (if staticServed (fo == "1") (fsOfTokens fsToks) ph final then "1" else "0"))
+       | none => some "bad-op")
+    | _, _, _ => some "bad-op"
   | "cand" :: rest =>
     -- candidate doc_root directories the vhost module would stat: cand <vhost...> <parseopts> <raw host>
     match parseVhost rest with
